@@ -1433,7 +1433,12 @@ def evidence_info(prop):
                 'incl. 0/None) x purge x keymap (raw/string/pickle/named hash; flat, typed, sentinel) x backend (none, '
                 'cache+null/dict/file/dir/sqlite in every encoding, or the archive used directly) x signature family) '
                 'and a seeded history of 5-400 steps: calls in several spellings over a small hot set, raising calls, '
-                'unhashable arguments (safe), load/dump/clear/toggle/swap, restarts, dill round trips. Oracle: '
+                'unhashable arguments (safe), load/dump/clear/toggle/swap, restarts, dill round trips, calls of a second '
+                'decorated instance on the same persistent archive, of a sibling function sharing the code object, of a '
+                'second function made by the same decorator object. Swarm options per run: rarer argument kinds (empty / '
+                'long shared-prefix / slash strings, big and negative ints, tuple, bytes), "wide" runs (maxsize 30/40 with '
+                '45-80 distinct calls), "sweep" workloads (working set = cache size used equally often, then newcomers), '
+                '"bigres" runs (1.2 MB results). A tenth of the calls each return None, \'\', 0, a 9 kB string. Oracle: '
                 + RULES[prop] + '. distinct = distinct (configuration, sequence of (step kind, resident count)); '
                 'non-trivial = the history contains at least one miss and at least one hit or load',
         'components': {
@@ -1445,7 +1450,8 @@ def evidence_info(prop):
             'stub_or_absent': ['sqlalchemy / hdf5 / pandas backends (not installed)'],
         },
         'assumptions': [
-            'wrapped functions are deterministic and equality-respecting; results are strings (lossless in every encoding)',
+            'wrapped callables are deterministic and equality-respecting; results are strings, None, \'\' or 0 (lossless in '
+            'every encoding); the builtin kind (max over two comparison-logging ints) is not used with source-text archives',
             'argument pools never mix values that compare equal across types (1, 1.0, True)',
             'flat keymaps are used with variadic signatures only when a sentinel is configured (information preserving)',
             'a restart drops every Python reference and rebuilds decorator and archive handle on the same location; '
